@@ -35,6 +35,7 @@ REQUIRED = {
         'peatclsm-curves': 20,
         'integer-typed-grids': 20,
         'cli-tables-checked': 8,
+        'cli-parameter-files-with-specific-yield-only': 2,
         'cli-observation-vectors-checked': 8,
         'cli-output-on-stdout': 4,
     }
@@ -166,6 +167,11 @@ def check_cli_case(ctx, rng, index):
             lo, hi = min(z), max(z)
             n = len(params['specific_yield']['sy_knots'])
             params['specific_yield']['zeta_knots_mm'] = [lo + (hi - lo) * (0.2 + 0.6 * i / (n - 1)) for i in range(n)]
+        if index % 3 == 1:
+            # the rise simulation needs the specific yield only: a parameter file without a
+            # transmissivity section
+            params = {'specific_yield': params['specific_yield']}
+            rec.hit('cli-parameter-files-with-specific-yield-only')
         pfile = curves_common.write_yaml(os.path.join(ctx.workdir, 'r{}_{}.yml'.format(index, kind)), params)
         wcase = dict(case, params=params)
         outs = {}
